@@ -120,8 +120,16 @@ impl ObjectStore for CachedObjectStore {
     }
 
     async fn get_opts(&self, location: &Path, options: GetOptions) -> ObjectStoreResult<GetResult> {
-        // For range requests or conditional gets, bypass cache
-        if options.range.is_some() || options.if_match.is_some() || options.if_none_match.is_some()
+        // Only a plain whole-object read can be answered from the cache: range requests,
+        // conditional gets (ETag or date), versioned reads and metadata-only reads go to the
+        // store, which alone can evaluate them.
+        if options.range.is_some()
+            || options.if_match.is_some()
+            || options.if_none_match.is_some()
+            || options.if_modified_since.is_some()
+            || options.if_unmodified_since.is_some()
+            || options.version.is_some()
+            || options.head
         {
             return self.inner.get_opts(location, options).await;
         }
